@@ -379,6 +379,8 @@ def run(pid, tier="quick", jobs=None, keep=False, only=None):
                 problems.append(f"{c.fn}: reachability twin was confirmed (harness never reaches the assertion)")
             elif c.kind == "prop":
                 discharged += 1
+        elif verdict in ("not_confirmed", "no_precondition") and c.kind == "search":
+            rep["verdict"] = "searched_not_exhausted"
         elif verdict in ("not_confirmed", "no_precondition"):
             if c.kind == "twin":
                 problems.append(f"{c.fn}: reachability twin found no witness ({verdict})")
